@@ -88,6 +88,9 @@ type G struct {
 	Args []*PT
 	Lib  string // library relation name (K == "lib"): the REAL Go function is called
 	F    string // which function argument is passed to MapO: eq | succ | tab
+	// Share > 0: a CLOSED sub-goal (no reference to an enclosing binder) that the gomini builder constructs ONCE and uses as the
+	// same Go goal value at every occurrence of this node - a goal is a value and may be entered any number of times
+	Share int
 }
 
 func gLib(name, f string, args ...*PT) *G { return &G{K: "lib", Lib: name, F: f, Args: args} }
